@@ -337,7 +337,7 @@ theorem collectGarbage_error (roots : Option (List Int)) (m : Mgr) (e : Err)
 
 /-- nothing reachable from a held node is ever in the removed set -/
 theorem GcPost.reach_kept {m m' : Mgr} {ext : Nat → Nat} {W : Nat → Prop} (h : GcPost m ext W m')
-    (h0 : InvS m) {u : Nat} (hu : Reach m.tbl (Held ext) u) : u = 1 ∨ (m'.tbl.node? u).isSome :=
+    (h0 : InvS m) {u : Nat} (hu : GcReach m.tbl (GcHeld ext) u) : u = 1 ∨ (m'.tbl.node? u).isSome :=
   reach_survives h.sub h.inv.toInvS h.refExact h0 hu
 
 /-- remaining references denote what they denoted -/
